@@ -148,6 +148,10 @@ def gen_plan(run_seed, tier="quick", profile="default", focus=None,
         if seed is not None:
           triples.append((name, n, seed))
       ops.append({"op": "rng", "name": name, "n": n, "seed": seed})
+      if seed is not None and r.random() < 0.15:
+        # the same request to a freshly constructed instance of the generator
+        ops.append({"op": "rng", "name": name, "n": n, "seed": seed,
+                    "new_instance": True})
     elif u < 0.72:
       # surrogate purity for the seed-ignoring generators / entropy purity
       name = r.choice(names)
@@ -185,6 +189,23 @@ def gen_plan(run_seed, tier="quick", profile="default", focus=None,
 # ----------------------------------------------------------------------------
 
 
+def _new_instance(inst):
+  """A freshly constructed generator with the parameters of `inst`."""
+  cls = type(inst)
+  name = cls.__name__
+  if name == "TruncLcgRand":
+    return cls(inst.output_size)
+  if name == "Mwc":
+    return cls(inst.a, inst.b)
+  if name == "Lehmer":
+    return cls(inst.a, inst.mod, inst.bits)
+  if name == "LcgNist":
+    return cls(inst.a)
+  if name == "SubsetSum":
+    return cls(inst.bits, inst.n)
+  return cls()
+
+
 def _exec_ops(ops, entropy_key, only_seeded=False):
   """Executes a history; returns the event list."""
   import numpy
@@ -200,7 +221,10 @@ def _exec_ops(ops, entropy_key, only_seeded=False):
         continue
       c0, b0 = ent.calls, ent.nbytes
       try:
-        v = rng.GetRng(op["name"]).RandomBits(op["n"], seed=op["seed"])
+        gen = rng.GetRng(op["name"])
+        if op.get("new_instance"):
+          gen = _new_instance(gen)
+        v = gen.RandomBits(op["n"], seed=op["seed"])
         ev = {"v": v if isinstance(v, int) and not isinstance(v, bool)
               else repr(type(v)), "ok": True}
         if op["seed"] is None and op["name"] in UNSEEDED_UNCONTROLLED:
